@@ -2,7 +2,9 @@
 reserved words.  Transcribed from docs/language_spec.rst; NOT imported from the repository,
 so that a change there is seen as a difference."""
 
-PERF_VAR = "$PERFORMANCE_PROGRESS_LIST"
+# deliberately NOT the name the documentation uses ("$PERFORMANCE_PROGRESS_LIST"): the name is configuration, and a place that
+# falls back to the documented name instead of the configured one must show
+PERF_VAR = "$PERF_PROGRESS_VF"
 
 COND_OPS = {"FALSE": 0, "TRUE": 1, "==": 2, ">": 3, "<": 4, ">=": 5, "<=": 6, "!=": 7, "&": 8, "^": 9, "&<<": 10}
 COND_OPS_INV = {v: k for k, v in COND_OPS.items()}
